@@ -97,7 +97,7 @@ def session(bindir, steps, tag, size=(24, 80), touch=False, filter_time=120, qui
         modes = apps.modes_at_end(rd.out)
         out = bytes(rd.out)
         ev = [{"ev": "session_start", "tag": tag, "rx": {"lat": round(RXF[0] * 1e6), "lon": round(RXF[1] * 1e6)},
-               "scale9": round((scale if scale is not None else 0.12) * 1e9)}]
+               "scale9": round((scale if scale is not None else 0.12) * 1e9), "retry": 0, "quit_sent": quit_sent, "filter_time": filter_time}]
         ev += [e for e in rd.events() if e.get("ev") != "unparsable"]
         ev.append({"ev": "session_end", "tag": tag, "quit_sent": quit_sent, "alive": alive, "exit": status if status is not None else -1,
                    "panic": 1 if b"panicked" in out else 0, "termios_before": tb, "termios_after": ta,
@@ -126,12 +126,8 @@ def noserver_session(bindir, tag, quit_key):
         status = rd.wait_exit(5)
         out = bytes(rd.out)
         modes = apps.modes_at_end(rd.out)
-        return [{"ev": "session_start", "tag": tag, "rx": {"lat": 0, "lon": 0}, "scale9": 120000000},
-                {"ev": "session_end", "tag": tag, "quit_sent": 1, "alive": 1 if status is None else 0, "exit": status if status is not None else -1,
-                 "panic": 1 if b"panicked" in out else 0, "termios_before": apps.termios_summary(rd.termios_before),
-                 "termios_after": apps.termios_summary(rd.termios_after()),
-                 "modes": {"mouse": max([modes.get(m, 0) for m in (1000, 1002, 1003, 1006, 1015)]), "cursor": modes.get(25, 1),
-                           "altscreen": modes.get(1049, 0)}, "panic_text": ""}]
+        return ([{"ev": "session_start", "tag": tag, "rx": {"lat": 0, "lon": 0}, "scale9": 120000000, "retry": 0, "quit_sent": 1, "filter_time": 120}]
+                + apps.hook_events(rd) + [apps.session_end_event(rd, tag, 1, status, 1 if status is None else 0)])
     finally:
         rd.cleanup()
 
@@ -152,16 +148,95 @@ def retry_wait_session(bindir, tag, quit_key):
         status = rd.wait_exit(5)
         out = bytes(rd.out)
         modes = apps.modes_at_end(rd.out)
-        return [{"ev": "session_start", "tag": tag, "rx": {"lat": 0, "lon": 0}, "scale9": 120000000},
-                {"ev": "session_end", "tag": tag, "quit_sent": 1, "alive": 1 if status is None else 0, "exit": status if status is not None else -1,
-                 "panic": 1 if b"panicked" in out else 0, "termios_before": apps.termios_summary(rd.termios_before),
-                 "termios_after": apps.termios_summary(rd.termios_after()),
-                 "modes": {"mouse": max([modes.get(m, 0) for m in (1000, 1002, 1003, 1006, 1015)]), "cursor": modes.get(25, 1),
-                           "altscreen": modes.get(1049, 0)},
-                 "panic_text": (re.search(rb"panicked at ([^\r\n]*)", out).group(1).decode("latin-1")[:120] if b"panicked" in out else "")}]
+        return ([{"ev": "session_start", "tag": tag, "rx": {"lat": 0, "lon": 0}, "scale9": 120000000, "retry": 1, "quit_sent": 1, "filter_time": 120}]
+                + apps.hook_events(rd) + [apps.session_end_event(rd, tag, 1, status, 1 if status is None else 0)])
     finally:
         srv.stop()
         rd.cleanup()
+
+
+def life_session(bindir, rng, tag, retry, nconn, last, quit_key):
+    """the client's life around its connections (Trace_Session): `nconn` connections, each with some traffic, each closed by
+    the server; `last` says what follows the last close: "gone" (nobody listens any more) or "hold" (one more connection that
+    stays open).  Without --retry-tcp the first close ends the client by itself.  At the end the operator quits (if the
+    client still runs)."""
+    script = []
+    for c in range(nconn):
+        script.append({"segments": [[list(aircraft_lines(rng, rng.random() < 0.6)), rng.choice(("short", "long"))] for _ in range(rng.randrange(0, 3))],
+                       "then": "close", "linger": rng.choice((0.1, 0.3)), "pause": rng.choice((0, 0.3))})
+    if last == "hold":
+        script.append({"segments": [[list(aircraft_lines(rng, True)), "short"]], "then": "hold"})
+    srv = apps.FeedServer(script)
+    srv.start()
+    rd = apps.Radar(bindir, srv.port, ["--lat", str(RXF[0]), "--long", str(RXF[1])] + (["--retry-tcp"] if retry else []))
+    quit_sent = 0
+    try:
+        rd.wait_frames(2, 6)
+        srv.done_sending.wait(20)
+        t0 = time.time()
+        while time.time() - t0 < 1.0:
+            rd.pump(0.05)
+        # some operator input while the client is in whatever state it is in
+        for k in rng.sample(["F3", "Down", "F1", "+", "x", "F9"], 2):
+            if rd.poll() is None:
+                rd.send(apps.KEYS[k])
+                rd.wait_frames(rd.frame_count() + 1, 0.5)
+        if rd.poll() is None:
+            rd.send(apps.KEYS[quit_key])
+            quit_sent = 1
+            status = rd.wait_exit(5)
+        else:
+            status = rd.poll()
+        return ([{"ev": "session_start", "tag": tag, "rx": {"lat": round(RXF[0] * 1e6), "lon": round(RXF[1] * 1e6)}, "scale9": 120000000,
+                  "retry": 1 if retry else 0, "quit_sent": quit_sent, "filter_time": 120}]
+                + apps.hook_events(rd) + [apps.session_end_event(rd, tag, quit_sent, status, 1 if status is None else 0)])
+    finally:
+        srv.stop()
+        rd.cleanup()
+
+
+def judge_sessions(prop, rep, events, name):
+    """the lifecycle of every recorded session against RadarSession (Trace_Session)"""
+    verdicts, st, tr = core.validate_events("Trace_Session", events, name, shards=8, boundary=lambda e: e["ev"] == "session_start")
+    rep.add_trace_stats(st, tr, 0)
+    starts = [i for i, e in enumerate(events) if e["ev"] == "session_start"]
+    import bisect
+    for v in verdicts:
+        si = bisect.bisect_right(starts, v["index"]) - 1
+        lo = starts[si]
+        ev = events[v["index"]]
+        cls = re.sub(r"(model|random|life)\d+", r"\1", v["cls"])
+        window = [{k2: e[k2] for k2 in e if k2 in ("ev", "keys", "quit", "code", "added", "hex", "exit", "alive", "quit_sent", "retry")}
+                  for e in events[max(lo, v["index"] - 12):v["index"] + 1]]
+        for owner, field in v["pairs"]:
+            rep.mismatch(owner, cls, field, {"kind": "session", "session_start": events[lo], "events_before": window})
+    rep.extra["lifecycle_sessions_judged"] = rep.extra.get("lifecycle_sessions_judged", 0) + len(starts)
+    rep.extra["lifecycle_events"] = rep.extra.get("lifecycle_events", 0) + len(events)
+    return verdicts
+
+
+def lifecycle_model(prop, tier, rep):
+    """Step D for the client's life (RadarSession): safety and, under weak fairness of the program's own steps, liveness"""
+    for r in ("0", "1"):
+        res = core.run_mc("MC_RadarSession", workers=4, timeout=900, cache=False, env_extra={"RETRY": r, "RESTORE": "1"})
+        rep.add_model(res, f"MC_RadarSession(retry={r}): Inv, KeepsAircraft, RunsUntilAsked, QuitLeadsToExit, ClosedFeedLeadsToExit, Reconnects")
+        if not res["ok"]:
+            rep.mismatch(prop, "session|model", "lifecycle", {"kind": "model", "violated": res["violated"], "tail": res["output_tail"][-800:]})
+    if tier == "thorough":
+        r0 = core.run_mc("MC_RadarSession", workers=4, timeout=900, cache=False, env_extra={"RETRY": "1", "RESTORE": "0"})
+        rep.extra["original_wait_quit_model_violates_TerminalRestored"] = (not r0["ok"]) and "Inv" in r0["violated"]
+        if r0["ok"]:
+            raise core.ToolError("anti-vacuity: the model of the original wait-quit path no longer violates TerminalRestored")
+
+
+def life_jobs(rng, tier):
+    jobs = []
+    n = 1 if tier == "quick" else 12
+    for i in range(n):
+        for retry, nconn, last in ((False, 1, "gone"), (False, 1, "hold"), (True, 1, "hold"), (True, 2, "hold"), (True, 1, "gone"), (True, 2, "gone")):
+            jobs.append(dict(tag=f"life{len(jobs)}-{'retry' if retry else 'once'}-{nconn}-{last}", retry=retry, nconn=nconn, last=last,
+                             quit_key=rng.choice(("q", "CtrlC")), seed=rng.getrandbits(32)))
+    return jobs
 
 
 KEYNAMES = ["F1", "F2", "F3", "F4", "F5", "Tab", "Enter", "Up", "Down", "Left", "Right", "+", "-", "l", "i", "h", "t", "n", "x", "Esc", "Space", "PageDown",
@@ -277,6 +352,14 @@ def run(prop, tier, seed, rep):
     for qk in ("q", "CtrlC"):
         results.append(retry_wait_session(bindir, "retrywait-" + qk, qk))
         jobs.append({"tag": "retrywait-" + qk})
+    # the client's life around its connections: judged by Trace_Session only (a client that ends by itself when its feed
+    # goes away is not a session Trace_UI knows)
+    lifecycle_model(prop, tier, rep)
+    lj = life_jobs(rng, tier)
+    with cf.ThreadPoolExecutor(max_workers=6) as ex:
+        life = list(ex.map(lambda j: life_session(bindir, random.Random(j["seed"]), j["tag"], j["retry"], j["nconn"], j["last"], j["quit_key"]), lj))
+    judge_sessions(prop, rep, [e for r in results + life for e in r], prop + "-session")
+    rep.extra["lifecycle_sessions_with_disconnects"] = len(life)
     events = [e for r in results for e in r]
     events.append({"ev": "session_start", "tag": "cli", "rx": {"lat": 0, "lon": 0}, "scale9": 0})
     for a in CLI_BAD:
